@@ -13,7 +13,8 @@
 //! stealers it pushes a filler task from time to time (MAYV_FILL, default on): a stealer that claimed
 //! slots beyond the tail (possible after an ABA) must complete as soon as they are filled.
 //! MAYV_F10 = 1: the directed schedule of finding F10? (no fillers: the stealer waits for ever when the ABA happens);
-//! MAYV_F10 = 2: the same with fillers (the stealer completes as soon as the owner pushes again).
+//! MAYV_F10 = 2: the same with fillers (the stealer completes as soon as the owner pushes again);
+//! MAYV_F10 = 4: as 2, but the queue is empty when the stale CAS succeeds (the claim is exactly the slot at the tail).
 //!
 //! Oracles on the implementation: every task obtained exactly once overall (owner pops + stealers'
 //! results + what is left in the stealers' own queues + final drain), never a value that was not
@@ -360,7 +361,11 @@ fn main() {
                 for _ in 0..32 {
                     take(&c, &mut local, &mut mine);
                 }
-                put(&c, &mut local);
+                // MAYV_F10 = 4: the queue stays EMPTY here, so the stalled taker's stale CAS claims exactly the slot at the
+                // tail and has to wait for the fillers (a taker that does not wait returns an unfilled slot)
+                if f10 != 4 {
+                    put(&c, &mut local);
+                }
             } else {
                 for _ in 0..n {
                     put(&c, &mut local);
@@ -370,7 +375,7 @@ fn main() {
                 }
             }
             OWNER_DONE.store(true, SeqCst);
-            if f10 == 2 {
+            if f10 == 2 || f10 == 4 {
                 // let the stalled stealer (MAYV_STALL=..:1000000000) come back and start waiting before the next push
                 while c.now() < 1_200_000_000 && finished2.load(SeqCst) < ns {
                     c.yield_now();
@@ -384,6 +389,10 @@ fn main() {
                 spins += 1;
                 if fill != 0 && f10 != 1 && spins % 40 == 0 && fillers < 70 {
                     fillers += 1;
+                    if f10 == 4 {
+                        // the owner looks into its queue while a taker may hold a claim beyond the tail: it must see it empty
+                        take(&c, &mut local, &mut mine);
+                    }
                     put(&c, &mut local);
                 }
             }
